@@ -36,7 +36,7 @@ def f2j(x):
 
 def gen_seq(rng, tier):
     n = rng.choice([0, 1, 2, 3, 5, 10, 30, 64, 100, 128, 256, 300]) if tier != 'thorough' else rng.choice([0, 1, 2, 3, 10, 100, 128, 512, 1000, 1024, 3000, 4096, 10000])
-    kind = rng.choice(['offset', 'offset', 'scale', 'const', 'ints', 'centred', 'mixed', 'zeros', 'uniform', 'bigsmall', 'nonneg', 'nonpos', 'offset_mixed'])
+    kind = rng.choice(['offset', 'offset', 'scale', 'const', 'ints', 'centred', 'mixed', 'zeros', 'uniform', 'bigsmall', 'nonneg', 'nonpos', 'offset_mixed', 'bigints'])
     if kind == 'offset':
         off = rng.choice([1e3, 1e6, -1e6, 12345.678])
         sd = rng.choice([1.0, 0.001, 1.0])
@@ -54,6 +54,11 @@ def gen_seq(rng, tier):
         xs = [c] * n
     elif kind == 'ints':
         xs = [rng.randint(-1000, 1000) for _ in range(n)]
+    elif kind == 'bigints':
+        # Python ints that each fit 64 bits while their sum does not (nanosecond timestamps, large counters), spread comparable to
+        # the magnitude (well conditioned)
+        lo = rng.choice([10 ** 18, 10 ** 16, 4 * 10 ** 18])
+        xs = [rng.choice([1, -1] if rng.random() < 0.3 else [1]) * rng.randint(lo, 2 * lo) for _ in range(n)]
     elif kind == 'centred':
         xs = []
         for _ in range(n // 2):
